@@ -70,6 +70,7 @@ func parseFlags(args []string) *config {
 	fs.BoolVar(&c.stopFirst, "stop-first", false, "stop at the first violation")
 	fs.IntVar(&c.vioGrace, "vio-grace", 0, "after the first violation keep exploring at most this many seconds (0 = no limit)")
 	fs.StringVar(&c.tags, "tags", "verif", "build tags")
+	fs.IntVar(&concLimit, "conc-limit", 64, "max distinct values one symbolic integer is concretised to")
 	fs.Parse(args)
 	return c
 }
